@@ -15,11 +15,13 @@ import (
 	"io"
 	"os"
 	"os/exec"
+	"regexp"
 	"runtime"
 	"sort"
 	"strconv"
 	"strings"
 	"sync"
+	"sync/atomic"
 	"testing"
 	"testing/synctest"
 	"time"
@@ -726,7 +728,7 @@ func runPxScenario(t *testing.T, idx int, kind string, sc pxScenario, em *Emitte
 	em.Marker("begin", idx)
 	// a goroutine waiting for a sync.Mutex is not durably blocked: a lock held across a blocking call in the proxy
 	// makes synctest.Wait hang; the watcher reports the scenario as wedged (exit 3) and the run resumes after it
-	wstep, wstop := guardWedge(em, idx, kind, sc, sc.Tags)
+	wstep, wstop := pxGuardWedge(em, idx, kind, sc, sc.Tags)
 	defer wstop()
 	leaked := bubble(t, func(t *testing.T) {
 		rig := &pxRig{sc: sc}
@@ -894,4 +896,79 @@ func pxRunJobs(t *testing.T, testName string, jobs []func(idx int, em *Emitter))
 		}
 		job(idx, em)
 	}
+}
+
+// ---------------------------------------------------------------- wedge watcher (stricter than wedge.go's)
+
+// pxGuardWedge watches one scenario from outside its bubble in real time, like guardWedge, but reports a wedge only
+// on evidence that cannot be produced by a slow machine: no step for at least 3 s AND two goroutine dumps one second
+// apart in which (a) the goroutines of the bubble are the same, in the same wait states, at the same top frames,
+// (b) at least one of them waits for a sync.Mutex / RWMutex, and (c) none of them is running, runnable, preempted, in
+// a syscall or doing GC work (a lock holder that can still move shows up as one of these). A mutex held across a
+// blocking call in the code under test gives exactly that picture for ever; a scheduling delay does not give it twice.
+func pxGuardWedge(em *Emitter, idx int, kind string, desc any, tags []string) (step func(), stop func()) {
+	var progress, done atomic.Int64
+	hdrRe := regexp.MustCompile(`^goroutine (\d+) \[([^\],]+)[^\]]*synctest bubble`)
+	picture := func() (pic string, waiters int, busy bool) {
+		buf := make([]byte, 8<<20)
+		dump := string(buf[:runtime.Stack(buf, true)])
+		var lines []string
+		for _, g := range strings.Split(dump, "\n\n") {
+			m := hdrRe.FindStringSubmatch(g)
+			if m == nil {
+				continue // not a goroutine of a bubble
+			}
+			state := m[2]
+			switch {
+			case strings.HasPrefix(state, "sync.Mutex") || strings.HasPrefix(state, "sync.RWMutex"):
+				waiters++
+			case state == "running" || state == "runnable" || state == "preempted" || state == "syscall" ||
+				strings.HasPrefix(state, "GC ") || state == "sleep" || state == "copystack" || state == "waiting":
+				busy = true
+			}
+			top := ""
+			if ls := strings.SplitN(g, "\n", 3); len(ls) > 1 {
+				top = ls[1]
+			}
+			lines = append(lines, m[1]+" "+state+" "+top)
+		}
+		sort.Strings(lines)
+		return strings.Join(lines, "\n"), waiters, busy
+	}
+	go func() {
+		last, stuck := int64(-1), 0
+		prev := ""
+		for done.Load() == 0 {
+			time.Sleep(250 * time.Millisecond)
+			p := progress.Load()
+			if p != last {
+				last, stuck, prev = p, 0, ""
+				continue
+			}
+			stuck++
+			if stuck < 12 || stuck%4 != 0 { // from 3 s without a step on, one picture per second
+				continue
+			}
+			pic, waiters, busy := picture()
+			if waiters == 0 || busy {
+				prev = ""
+				if stuck < 4800 { // 20 minutes without any step: give up anyway
+					continue
+				}
+			} else if pic != prev {
+				prev = pic
+				continue
+			}
+			if done.Load() != 0 || progress.Load() != p {
+				return
+			}
+			em.Emit(Rec{Idx: idx, Kind: kind + "-wedged", Desc: desc,
+				Obs:  map[string]any{"lock_waiters": waiters, "steps_done": p, "picture": pic},
+				Tags: append(append([]string{}, tags...), "wedged")})
+			em.Marker("end", idx)
+			em.Close()
+			os.Exit(3)
+		}
+	}()
+	return func() { progress.Add(1) }, func() { done.Store(1) }
 }
